@@ -45,6 +45,10 @@ uint64_t	vf_blk_h[8];
 /* GOST R 34.11-2012: N and Sigma after the last g_N call, operand/kind of each call */
 uint64_t	vf_blk_N[8];
 uint64_t	vf_blk_S[8];
+size_t		vf_blk_bits;	/* bit length passed with the last g_N call */
+size_t		vf_blk_lenfull;	/* bytes fed by g_N calls that declared full 512-bit blocks */
+size_t		vf_g0_n;	/* number of g_0 calls (gost3411_2012_transform_1) so far */
+const void	*vf_g0_ptr[4];	/* their operands */
 
 size_t		vf_s_k;
 size_t		vf_s_len;
